@@ -6,6 +6,9 @@
   only) is answered `unmodelled`.
 -/
 import AferoVerif.Model.Contains
+import AferoVerif.Model.Util
+import AferoVerif.Engine.CopyFault
+import AferoVerif.Engine.FsParse
 namespace AferoVerif.Engine.Contains
 open AferoVerif Script
 
@@ -13,9 +16,54 @@ open AferoVerif Script
 def splice (c : List UInt8) (off : Nat) (part : List UInt8) : List UInt8 :=
   (c.take off ++ part ++ c.drop (off + part.length)).take c.length
 
-def stepLine (s : Unit) (line : String) : Unit × String :=
+/-- engine state: the in-memory filesystem of the case (the round-trip lines are modelled on the
+    `mem` stack; other stacks are judged by the Go-side oracle only) -/
+structure St where
+  modelled : Bool := false
+  m : MemFs := MemFs.init
+
+/-- one `rt <kind> <path-hex> <size> <seed>` line on the model: the helper, then ReadFile -/
+def rtLine (m : MemFs) (kind : String) (path : Str) (size seed : Nat) : MemFs × String :=
+  let data := CopyFault.genBytes size seed
+  let dir := (Path.splitDirFile path).1
+  let verdict (m : MemFs) (want : Bytes) : MemFs × String :=
+    let r := Util.readFile m path
+    (r.1, if r.2 = some want then "rt ok" else "rt model-mismatch")
+  match kind with
+  | "writefile" =>
+    let m1 := (m.mkdirAll (keyOfStr dir) 0o755).1
+    let w := Util.writeFile m1 path data 0o644
+    if w.2 = .ok then verdict w.1 data else (w.1, "rt model-fail")
+  | "writereader" =>
+    let w := Util.writeReader m path data
+    if w.2 = .ok then verdict w.1 data else (w.1, "rt model-fail")
+  | "safewrite" =>
+    let w := Util.safeWriteReader m path data
+    if w.2 = .ok then verdict w.1 data else (w.1, "rt model-fail")
+  | "safeexisting" =>
+    let old := CopyFault.genBytes (size / 2 + 3) (seed + 1)
+    let w0 := Util.writeReader m path old
+    let w := Util.safeWriteReader w0.1 path data
+    if w0.2 = .ok ∧ w.2 ≠ .ok then verdict w.1 old else (w.1, "rt model-fail")
+  | "writefile-over" | "writereader-over" =>
+    let old := CopyFault.genBytes (size * 2 + 7) (seed + 1)
+    let m1 := (m.mkdirAll (keyOfStr dir) 0o755).1
+    let w0 := Util.writeFile m1 path old 0o644
+    let w := if kind = "writefile-over" then Util.writeFile w0.1 path data 0o644 else Util.writeReader w0.1 path data
+    if w0.2 = .ok ∧ w.2 = .ok then verdict w.1 data else (w.1, "rt model-fail")
+  | _ => (m, "bad-op")
+
+def stepLine (s : St) (line : String) : St × String :=
   match tokens line with
-  | "case" :: _ => (s, "case")
+  | ["case", "mem"] => ({ modelled := true, m := MemFs.init }, "case")
+  | "case" :: _ => ({ modelled := false }, "case")
+  | ["rt", kind, p, size, seed] =>
+    if !s.modelled then (s, "unmodelled") else
+    match bytesOfHex p, size.toNat?, seed.toNat? with
+    | some p, some size, some seed =>
+      let r := rtLine s.m kind (toStr p) size seed
+      ({ s with m := r.1 }, r.2)
+    | _, _, _ => (s, "bad-op")
   | "contains" :: c :: ns =>
     match bytesOfHex c, ns.mapM bytesOfHex with
     | some c, some ns => (s, if containsAny c ns then "true" else "false")
